@@ -597,7 +597,108 @@ def oracle(case, stats=None):
         stats.extra["solver_calls_compared"] = stats.extra.get("solver_calls_compared", 0) + ncalls
 
 
+# ------------------------------------------------------------------ part "refinement": the option is applied as documented
+
+@st.composite
+def refinement_case(draw):
+    qp = draw(st.booleans())
+    kinds = draw(st.sampled_from(["l", "lq", "ls", "lqs", "q", "s"]))
+    prob = draw(gc.cone_case(kind="feas", kinds=kinds, qp=qp))
+    return dict(qp=qp, prob=prob, how=draw(st.sampled_from(["per", "per", "global"])),
+                wrapper=draw(st.booleans()), other=draw(st.sampled_from([None, 0, 2])))
+
+
+def refinement_oracle(case, stats=None):
+    """'refinement: number of iterative refinement steps when solving KKT equations (default: 0 if the problem has no
+    second-order cone or matrix inequality constraints; 1 otherwise)'.  Each refinement step is one more call of the
+    solve routine that the (user) KKT solver returned, so the number of solve calls that follow the first factorization
+    of the main loop (where the iterates do not yet depend on the option) must grow linearly with the option, an
+    explicit 0 must be honoured, and leaving the option out must behave like the documented default."""
+    qp, prob = case["qp"], case["prob"]
+    mat = c03.qp_data(prob) if qp else gc.materialize(prob)
+    dims = mat["dims"]
+    labels = ["refinement:" + ("qp" if qp else "lp")]
+    if not (mat["qp_rank_ok"] if qp else mat["rank_ok"]):
+        if stats is not None:
+            stats.evaluated(case, False, labels + ["skipped:rank"])
+        return
+    G, h = gc.cvx_dense(mat["G"]), gc.cvx_dense(mat["h"])
+    A, b = gc.cvx_dense(mat["A"]), gc.cvx_dense(mat["b"])
+    pure_l = not dims["q"] and not dims["s"]
+    entry = "coneqp" if qp else "conelp"
+    if case["wrapper"] and pure_l:
+        entry = "qp" if qp else "lp"
+
+    def run(r):
+        prof = []
+        if qp:
+            Pm = gc.cvx_dense(mat["P"])
+            fac = misc.kkt_ldl(G, dims, A, 0)
+        else:
+            fac = misc.kkt_ldl(G, dims, A)
+
+        def kkt(W):
+            f = fac(W, Pm) if qp else fac(W)
+            prof.append(0)
+
+            def solve(x, y, z):
+                prof[-1] += 1
+                return f(x, y, z)
+            return solve
+        opts = {"show_progress": False, "maxiters": 3}
+        solvers.options.clear()
+        if case["how"] == "global":
+            if r is not None:
+                solvers.options["refinement"] = r
+            solvers.options.update(show_progress=False, maxiters=3)
+            kw = {}
+        else:
+            if case["other"] is not None:
+                solvers.options["refinement"] = case["other"]       # must lose against the per-call dictionary
+            if r is not None:
+                opts["refinement"] = r
+            elif case["other"] is not None:
+                del solvers.options["refinement"]
+            kw = {"options": opts}
+        try:
+            if entry == "conelp":
+                solvers.conelp(gc.cvx_dense(mat["c"]), G, h, dims, A, b, kktsolver=kkt, **kw)
+            elif entry == "lp":
+                solvers.lp(gc.cvx_dense(mat["c"]), G, h, A, b, kktsolver=kkt, **kw)
+            elif entry == "coneqp":
+                solvers.coneqp(Pm, gc.cvx_dense(mat["q"]), G, h, dims, A, b, kktsolver=kkt, **kw)
+            else:
+                solvers.qp(Pm, gc.cvx_dense(mat["q"]), G, h, A, b, kktsolver=kkt, **kw)
+        finally:
+            solvers.options.clear()
+        return prof
+    try:
+        profs = {r: run(r) for r in (0, 1, 2, None)}
+    except (ValueError, ArithmeticError, ZeroDivisionError):
+        if stats is not None:
+            stats.evaluated(case, False, labels + ["skipped:raised"])       # judged by C05/C10
+        return
+    if min(len(p_) for p_ in profs.values()) < 2:
+        if stats is not None:
+            stats.evaluated(case, False, labels + ["skipped:no_main_loop_factorization"])
+        return
+    c0, c1, c2, cd = (profs[r][1] for r in (0, 1, 2, None))
+    default = 0 if pure_l else 1
+    where = "%s (dims %r, options given %s)" % (entry, dims, "per call" if case["how"] == "per" else "in solvers.options")
+    if not (c0 < c1 < c2 and c1 - c0 == c2 - c1):
+        raise Violation("%s: KKT solves after the first factorization of the main loop with refinement = 0, 1, 2: %d, %d, %d "
+                        "(each refinement step is one more solve per KKT system: the counts must grow linearly)" % (where, c0, c1, c2))
+    if cd != (c0, c1)[default]:
+        raise Violation("%s: without a 'refinement' option %d solves follow the first factorization, the documented default %d "
+                        "gives %d (0, 1, 2 give %d, %d, %d)" % (where, cd, default, (c0, c1)[default], c0, c1, c2))
+    if stats is not None:
+        stats.evaluated(case, not pure_l, labels + ["entry:" + entry, "how:" + case["how"]])
+
+
 def search(ctx, stats):
+    if ctx.part == "refinement":
+        v = run_given(refinement_case(), lambda c: refinement_oracle(c, stats), ctx.seed, ctx.n(1500, 40000), stats)
+        return [v] if v else []
     server()
     v = run_given(history(), lambda c: oracle(c, stats), ctx.seed, ctx.n(800, 30000), stats, on_timeout="violation")
     SERVER.close()
@@ -605,6 +706,12 @@ def search(ctx, stats):
 
 
 def replay(case, part):
+    if part == "refinement":
+        try:
+            refinement_oracle(case)
+        except Violation as v:
+            return v.msg
+        return None
     server()
     try:
         oracle(case)
